@@ -321,10 +321,13 @@ class Compiler:
             "set_where": None
         }
 
-        code = self.compile_file(file, link_base["promise"], link_base)
-
-        if not link_base["promise"].settled:
-            link_base["promise"].settle(addr)
+        try:
+            code = self.compile_file(file, link_base["promise"], link_base)
+        finally:
+            # Also when an error aborts the included file half way: symbols it
+            # has defined so far are expressed in terms of this promise
+            if not link_base["promise"].settled:
+                link_base["promise"].settle(addr)
 
         return code
 
